@@ -381,6 +381,17 @@ def check(pid, tier="quick", seed=None, replay=None):
                 dist[t] = dist.get(t, 0) + 1
             if model_ok and lines:
                 ev = eval_cases("GV." + corr_file[:-2].replace("/", "."), lines, workdir, shard=spec.get("shard", SHARD))
+            # oracle self-test: hand-written outputs of plausible bugs must be flagged
+            negf = os.path.join(ROOT, "negative", pid + ".txt")
+            if model_ok and os.path.exists(negf) and not replay:
+                neg = [l.rstrip("\n") for l in open(negf) if "\t" in l and not l.startswith("#")]
+                if neg:
+                    evn = eval_cases("GV." + corr_file[:-2].replace("/", "."), neg, workdir, shard=spec.get("shard", SHARD))
+                    flagged = set(evn["oracle"]) | set(i for i, _ in evn["known"])
+                    missed = [neg[i] for i in range(len(neg)) if i not in flagged]
+                    ctx.extra_cov["oracle_selftest"] = dict(negative_cases=len(neg), flagged=len(flagged))
+                    if missed or evn["errors"]:
+                        problems_B.append("oracle self-test: negative case(s) not flagged: " + "; ".join(missed[:3]) + " ".join(evn["errors"])[:500])
                 for e in ev["errors"]:
                     problems_B.append("case evaluation failed: " + e[-800:])
     if hasattr(mod, "extra"):
